@@ -197,6 +197,36 @@ func ops(r *mon.R, im *Impl, rng *gen.Rng, idx int) {
 				check("Inv/used-receiver", used().Inv(sb), new(big.Int).Set(bi))
 			}
 		}
+		// the same operations with the receiver being one of the operands (x = x op b, x = a op x, x = x op x): the field
+		// value must not depend on where the result is stored
+		ca, cb := sa.Clone(), sb.Clone()
+		check("Add/receiver=a", ca.Add(ca, sb), new(big.Int).Add(a, b))
+		check("Add/receiver=b", cb.Add(sa, cb), new(big.Int).Add(a, b))
+		ca, cb = sa.Clone(), sb.Clone()
+		check("Sub/receiver=a", ca.Sub(ca, sb), new(big.Int).Sub(a, b))
+		check("Sub/receiver=b", cb.Sub(sa, cb), new(big.Int).Sub(a, b))
+		ca, cb = sa.Clone(), sb.Clone()
+		check("Mul/receiver=a", ca.Mul(ca, sb), new(big.Int).Mul(a, b))
+		check("Mul/receiver=b", cb.Mul(sa, cb), new(big.Int).Mul(a, b))
+		ca = sa.Clone()
+		check("Neg/receiver=a", ca.Neg(ca), new(big.Int).Neg(a))
+		ca = sa.Clone()
+		check("Add/receiver=a=b", ca.Add(ca, ca), new(big.Int).Add(a, a))
+		ca = sa.Clone()
+		check("Mul/receiver=a=b", ca.Mul(ca, ca), new(big.Int).Mul(a, a))
+		ca = sa.Clone()
+		check("Sub/receiver=a=b", ca.Sub(ca, ca), new(big.Int))
+		if b.Sign() != 0 {
+			if bi := new(big.Int).ModInverse(b, q); bi != nil {
+				ca, cb = sa.Clone(), sb.Clone()
+				check("Div/receiver=a", ca.Div(ca, sb), new(big.Int).Mul(a, bi))
+				check("Div/receiver=b", cb.Div(sa, cb), new(big.Int).Mul(a, bi))
+				cb = sb.Clone()
+				check("Inv/receiver=a", cb.Inv(cb), new(big.Int).Set(bi))
+				cb = sb.Clone()
+				check("Div/receiver=a=b", cb.Div(cb, cb), big.NewInt(1))
+			}
+		}
 		check("Zero", im.New().Set(sa).Zero(), new(big.Int))
 		check("One", im.New().Set(sa).One(), big.NewInt(1))
 		check("Set", im.New().Set(sa), new(big.Int).Set(a))
